@@ -1,5 +1,5 @@
 """C12 — field-restructuring verbs do exactly their rearrangement and invert cleanly (DESIGN 3/C12)."""
-import json
+import json, os
 from concurrent.futures import ThreadPoolExecutor
 from vlib import *
 
@@ -42,7 +42,7 @@ def hx(x):
     return (x if isinstance(x, bytes) else x.encode("latin1")).hex()
 
 
-def verbrun(ctx, reqs, nproc=4):
+def verbrun(ctx, reqs, nproc=2):
     """reqs: list of (verbargs, recs); runs them inside `implrun verbrun` processes (the verb is constructed by its own
     ParseCLIFunc and fed the records); returns list of (status, records|None, err) with status 0 on success."""
     import subprocess
@@ -92,9 +92,10 @@ def violation_once(ctx, obj, found_input=True):
     return ctx.violation(obj, found_input=found_input)
 
 
-def eval_batched(ctx, name, imports, ty, terms, shard, maxpar=12):
-    """coq_eval_mismatches starts one coqc per shard at once; keep at most maxpar of them alive (memory)"""
+def eval_batched(ctx, name, imports, ty, terms, shard, maxpar=2):
+    """coq_eval_mismatches starts one coqc per shard at once; keep at most maxpar of them alive (memory, machine load)"""
     bad, errs = [], ""
+    maxpar = int(os.environ.get("VERIF_COQ_PAR", maxpar))
     step = shard * maxpar
     for off in range(0, len(terms), step):
         b, e = coq_eval_mismatches(ctx, name, imports, ty, "chk", terms[off:off + step], shard=shard)
@@ -564,7 +565,7 @@ def cli_tie(ctx, meta):
         if j[5] and all(r for r in j[5]) and len(j[5]) >= 2:
             firsts[j[0]] = (j, out)
     items = list(firsts.values())
-    with ThreadPoolExecutor(6) as ex:
+    with ThreadPoolExecutor(2) as ex:
         res = list(ex.map(lambda it: run_mlr_cli(ctx, it[0][2], it[0][5]), items))
     for (j, out), (st, o, err) in zip(items, res):
         ctx.count(("cli", j[0], repr(j[2]), repr(j[5])))
@@ -739,7 +740,7 @@ def run(ctx):
             ctx.violation({"broken": why}, found_input=False)
         return
     with ctx.timed("coq_cases"):
-        bad, err = eval_batched(ctx, "C12", "Base.Record C12.Model C12.Harness", "Z * list bytes * list bytes * list record * list record", terms, shard=200)
+        bad, err = eval_batched(ctx, "C12", "Base.Record C12.Model C12.Harness", "Z * list bytes * list bytes * list record * list record", terms, shard=400)
     ctx.cov["correspondence"] = {"cases": len(terms), "mismatches": len(bad)}
     if err:
         ctx.violation({"broken": "correspondence-evaluation", "detail": err[-2000:]}, found_input=False)
